@@ -101,6 +101,35 @@ def free_containers(fn, tainted):
     return out - own - set(tainted)
 
 
+def r_tree_views_fresh(repo, rep, R='R18.1'):
+    """the list-valued views of a tree (`tokens`, `leaves`) are built anew for every caller: printers consume them (pop, enumerate and
+    pop) as work lists of their own.  A path that hands out a list the tree itself holds (`return self.children`) makes that
+    consumption empty the node."""
+    mod = repo.module('depccg/tree.py')
+    cls = mod.get('Tree')
+    n = 0
+    for m in [x for x in cls.body if isinstance(x, ast.FunctionDef)]:
+        listy = m.name in ('tokens', 'leaves') or (m.returns is not None and src(m.returns).startswith(('List[', 'list[', 'typing.List[')))
+        if not listy or m.name.startswith('__'):
+            continue
+        n += 1
+        held = []
+        for r in [x for x in ast.walk(m) if isinstance(x, ast.Return) and x.value is not None]:
+            v = r.value
+            if isinstance(v, ast.Name):
+                binds = [a for a in ast.walk(m) if isinstance(a, ast.Assign) and any(isinstance(t, ast.Name) and t.id == v.id for t in a.targets)]
+                if len(binds) == 1:
+                    v = binds[0].value
+            if isinstance(v, ast.Attribute) and isinstance(v.value, ast.Name) and v.value.id == 'self':
+                held.append((r, src(v)))
+        rep.check(not held, R, '%s:%s Tree.%s' % (mod.rel, held[0][0].lineno if held else m.lineno, m.name), 'Tree.%s:fresh-list' % m.name,
+                  'Tree.%s builds the list it returns' % m.name,
+                  'Tree.%s returns `%s`, a list the node itself holds: a printer that consumes the view (xml pops the tokens it has written) '
+                  'empties the node, and every later rendering of the same result fails' % (m.name, held[0][1] if held else ''))
+    rep.floor('list-valued views of Tree', n, 2)
+    return n
+
+
 def r_printers_pure(repo, rep, R1='R18.1', R2='R18.2', consequence='a later rendering sees the changed object'):
     """no printer function stores into, deletes from or calls a mutating method on a value that may be (or contain) an object of the parse result"""
     n = 0
@@ -195,6 +224,7 @@ def check(repo, rep, tier):
     rep.ok('R18.1', 'sa/checks/c18.py POSITIVE_EXAMPLE', 'the analysis flags token[..] = token.pop(..) on an aliased token and not the same edit on dict(token)')
     n = r_printers_pure(repo, rep)
     rep.floor('printer functions analysed', n, 35)
+    r_tree_views_fresh(repo, rep)
     # ... nor through a setter of another module: functions of the package that rebind a module-level name (`global x;
     # x = ..`, e.g. depccg.lang.set_global_language_to) change what every later rendering -- and the readers -- see
     setters = {}
